@@ -24,6 +24,18 @@ What is translated (anything else raises Unsupported and the function is reporte
     (load/store through a pointer, listed in the spec), or to a function listed under `oracle_calls' (assumed
     free of effects on the modelled paths; its result becomes an extra input `callN_<name>').
 
+  * ELEMENT REFERENCES: a local of type `struct T *' that is bound by a call listed under `ref_intrinsics'
+    (e.g. `qb_array_index(arr, idx, (void **)&entry)': {"array": 0, "index": 1, "out": 2}) denotes element
+    `idx' of the array-like path of `arr'; the index is an ordinary Z-valued local (`entry_i'), the base path is
+    fixed per local.  `entry->f' is then the function-valued path `<arr>_f' applied to `entry_i'.  The result of
+    the binding call itself is an oracle stream like any other external call.  A member access through any other
+    non-parameter local pointer is rejected (Unsupported).
+  * further intrinsic kinds: "add" (`f(&lv, v)': lv += v), "xadd" (`f(&lv, v)': lv += v, value = old lv),
+    "zero_struct" (`memset(ref, 0, sizeof(struct T))': every scalar field of the element := 0);
+  * the comma operator whose left operand has no call and no assignment (the `(void) sizeof(...)' type checks of
+    qbatomic.h) is its right operand.  A call with effects on the state (oracle counter, stores, binding) in the
+    right operand of && / || or in a branch of ?: is rejected (it would be hoisted out of its guard).
+
 Output conventions: all values are Z.  `u32 x' = x mod 2^32 etc. come from coq/C2CoqPrelude.v.
 """
 import json
@@ -61,6 +73,13 @@ def int_type(t):
     if q.endswith("*") or "(*)" in q:
         return (64, False)
     return None
+
+
+def record_pointee(t):
+    """name of the struct a `struct T *' type points to, else None"""
+    q = desugar(t)
+    m = re.match(r"^struct ([A-Za-z_][A-Za-z0-9_]*) \*$", q)
+    return m.group(1) if m else None
 
 
 def wrap(t, s):
@@ -104,6 +123,8 @@ class Fn:
         self.on_break = self.on_continue = None
         self.ncalls = 0
         self.notes = []
+        self.refbase = {}         # decl id of a `struct T *' local bound by a ref intrinsic -> base path name
+        self.reftype = {}         # decl id -> record name
         self.rettype = decl["type"]["qualType"].split("(")[0].strip()
         self.ret_void = self.rettype == "void"
         for p in self.params:
@@ -114,6 +135,29 @@ class Fn:
             self.locals[p["id"]] = v
             self.add_input(v)
         self.param_ids = {p["id"] for p in self.params}
+        # element references: the base path of every local bound by a ref intrinsic is fixed before translation
+        for n in walk(self.body):
+            if n.get("kind") != "CallExpr":
+                continue
+            nm, _ = self.callee_name(n)
+            ri = self.spec.get("ref_intrinsics", {}).get(nm)
+            if not ri:
+                continue
+            args = n["inner"][1:]
+            out = args[ri["out"]]
+            while out["kind"] in ("ImplicitCastExpr", "CStyleCastExpr", "ParenExpr") or \
+                    (out["kind"] == "UnaryOperator" and out["opcode"] == "&"):
+                out = out["inner"][0]
+            rid = out.get("referencedDecl", {}).get("id") if out["kind"] == "DeclRefExpr" else None
+            try:
+                arr = self.path_of(args[ri["array"]])
+            except Unsupported:
+                continue
+            if rid is None or arr[1] is not None:
+                continue
+            if self.refbase.get(rid) not in (None, arr[0]):
+                raise Unsupported("a local is bound to elements of two different arrays")
+            self.refbase[rid] = arr[0]
 
     # ------------------------------------------------------------------ inputs / paths
     def add_input(self, v):
@@ -134,14 +178,22 @@ class Fn:
             if rd["id"] in self.locals:
                 if self.locals[rd["id"]].kind == "bad":
                     raise Unsupported("use of non-integer local %s" % rd.get("name"))
+                if self.locals[rd["id"]].kind == "ref":
+                    if self.refbase.get(rd["id"]) is None:
+                        raise Unsupported("element reference %s used before a binding call" % rd.get("name"))
+                    return (self.refbase[rd["id"]], {"kind": "__raw", "text": self.locals[rd["id"]].name,
+                                                     "type": {"qualType": "long"}}, e["type"], None)
                 return (self.locals[rd["id"]].name, None, e["type"], rd["id"])
             if rd["kind"] == "VarDecl":          # global
                 return ("g_" + cname(rd["name"]), None, e["type"], None)
             raise Unsupported("reference to %s %s" % (rd["kind"], rd.get("name")))
         if k == "MemberExpr":
             base = self.path_of(e["inner"][0])
+            if base[3] is not None and base[3] not in self.param_ids:
+                raise Unsupported("member access through the local pointer %s (not an element reference)" % base[0])
             if base[1] is not None:
-                raise Unsupported("member of an array element")
+                # field of an array element: the function-valued path <array>_<field> at the element's index
+                return (base[0] + "_" + cname(e["name"]), base[1], e["type"], None)
             return (base[0] + "_" + cname(e["name"]), None, e["type"], None)
         if k == "ArraySubscriptExpr":
             base = self.path_of(e["inner"][0])
@@ -154,7 +206,10 @@ class Fn:
             base = self.path_of(e["inner"][0])
             if base[1] is not None:
                 raise Unsupported("deref of an array element")
-            return (base[0], {"kind": "IntegerLiteral", "value": "0", "type": {"qualType": "int"}}, e["type"], None)
+            nm = base[0]
+            if base[3] is not None and base[3] in self.param_ids:
+                nm += "_pointee"     # `*p' for a parameter p: the object, as distinct from the pointer value p
+            return (nm, {"kind": "IntegerLiteral", "value": "0", "type": {"qualType": "int"}}, e["type"], None)
         if k == "UnaryOperator" and e["opcode"] == "&":
             return self.path_of(e["inner"][0])
         raise Unsupported("lvalue of kind %s" % k)
@@ -188,12 +243,19 @@ class Fn:
             if op == "!=":
                 return "(negb (%s =? %s))" % (self.expr(e["inner"][0]), self.expr(e["inner"][1]))
             if op == "&&":
-                return "(%s && %s)" % (self.cond(e["inner"][0]), self.cond(e["inner"][1]))
+                return "(%s && %s)" % (self.cond(e["inner"][0]), self.guarded(lambda: self.cond(e["inner"][1])))
             if op == "||":
-                return "(%s || %s)" % (self.cond(e["inner"][0]), self.cond(e["inner"][1]))
+                return "(%s || %s)" % (self.cond(e["inner"][0]), self.guarded(lambda: self.cond(e["inner"][1])))
         if k == "UnaryOperator" and e["opcode"] == "!":
             return "(negb %s)" % self.cond(e["inner"][0])
         return "(negb (%s =? 0))" % self.expr(e)
+
+    def guarded(self, thunk):
+        """translate an operand that C evaluates conditionally: it must not bind anything in front of the statement"""
+        txt, pre = self.ev(thunk)
+        if pre:
+            raise Unsupported("call with effects inside the right operand of && / || or a branch of ?:")
+        return txt
 
     def is_boolish(self, e):
         if e["kind"] == "ParenExpr":
@@ -218,6 +280,8 @@ class Fn:
 
     def expr(self, e):
         k = e["kind"]
+        if k == "__raw":
+            return e["text"]
         if k == "ParenExpr":
             return self.expr(e["inner"][0])
         if k == "ConstantExpr":
@@ -296,7 +360,11 @@ class Fn:
             if op in ("<", "<=", ">", ">=", "==", "!=", "&&", "||"):
                 return "(if %s then 1 else 0)" % self.cond(e)
             if op == ",":
-                raise Unsupported("comma operator")
+                if any(n.get("kind") in ("CallExpr", "CompoundAssignOperator") or
+                       (n.get("kind") == "BinaryOperator" and n.get("opcode") == "=") or
+                       (n.get("kind") == "UnaryOperator" and n.get("opcode") in ("++", "--")) for n in walk(a)):
+                    raise Unsupported("comma operator with effects in its left operand")
+                return self.expr(b)
             if op == "=" or op.endswith("=") and op not in ("==", "!=", "<=", ">="):
                 raise Unsupported("assignment inside an expression")
             x, y = self.expr(a), self.expr(b)
@@ -317,7 +385,8 @@ class Fn:
             return wrap(e["type"], s)
         if k == "ConditionalOperator":
             c, a, b = e["inner"]
-            return "(if %s then %s else %s)" % (self.cond(c), self.expr(a), self.expr(b))
+            return "(if %s then %s else %s)" % (self.cond(c), self.guarded(lambda: self.expr(a)),
+                                                self.guarded(lambda: self.expr(b)))
         if k == "CallExpr":
             return self.call(e, want_value=True)[0]
         raise Unsupported("expression kind %s" % k)
@@ -353,7 +422,72 @@ class Fn:
             if what == "store":         # f(&lvalue, v)
                 p = self.path_of(args[0])
                 return "0", [(p, self.expr(args[1]))]
+            if what in ("add", "xadd"):  # f(&lvalue, v): lvalue += v; xadd returns the old value
+                p = self.path_of(args[0])
+                cur = self.read_path(args[0])
+                self.ncalls += 1
+                old = "x%d_old" % self.ncalls
+                newv = "(%s + %s)" % (old, self.expr(args[1]))
+                self.pre.append(("let %s := %s in\n" % (old, cur) + self.store(p, newv, lambda: ""), ""))
+                return old, []
+            if what == "zero_struct":   # memset(ref, 0, sizeof(struct T))
+                a0 = args[0]
+                while a0["kind"] in ("ImplicitCastExpr", "CStyleCastExpr", "ParenExpr"):
+                    a0 = a0["inner"][0]
+                rid = a0.get("referencedDecl", {}).get("id") if a0["kind"] == "DeclRefExpr" else None
+                if rid in self.locals and rid not in self.param_ids and self.locals[rid].kind == "Z":
+                    note = "memset of the object a local pointer (%s) refers to dropped: the object is not among the " \
+                           "modelled paths" % self.locals[rid].name
+                    if note not in self.notes:
+                        self.notes.append(note)
+                    return "0", []
+                if rid not in self.refbase or self.refbase.get(rid) is None:
+                    raise Unsupported("memset of something that is not a bound element reference")
+                if self.tu.const_value(args[1]) != 0:
+                    raise Unsupported("memset with a non-zero fill")
+                txt = ""
+                for fname, fty in self.tu.record_fields(self.reftype[rid]):
+                    if int_type(fty) is None:
+                        raise Unsupported("memset over the non-scalar field %s" % fname)
+                    pth = (self.refbase[rid] + "_" + cname(fname),
+                           {"kind": "__raw", "text": self.locals[rid].name, "type": {"qualType": "long"}}, fty, None)
+                    txt += self.store(pth, "0", lambda: "")
+                self.pre.append((txt, ""))
+                return "0", []
             raise Unsupported("intrinsic kind %s" % what)
+        if name in self.spec.get("ref_intrinsics", {}):
+            # f(..array.., ..index.., ..(void **)&local..): binds the local to element `index' of the array path;
+            # the C result is an oracle stream
+            ri = self.spec["ref_intrinsics"][name]
+            arr = self.path_of(args[ri["array"]])
+            if arr[1] is not None:
+                raise Unsupported("%s on an element of an array" % name)
+            out = args[ri["out"]]
+            while out["kind"] in ("ImplicitCastExpr", "CStyleCastExpr", "ParenExpr") or \
+                    (out["kind"] == "UnaryOperator" and out["opcode"] == "&"):
+                out = out["inner"][0]
+            rid = out.get("referencedDecl", {}).get("id") if out["kind"] == "DeclRefExpr" else None
+            if rid not in self.locals or self.locals[rid].kind != "ref":
+                raise Unsupported("%s: the out argument is not a local struct pointer" % name)
+            if self.refbase.get(rid) not in (None, arr[0]):
+                raise Unsupported("local %s is bound to elements of two different arrays" % self.locals[rid].name)
+            self.refbase[rid] = arr[0]
+            idx = self.expr(args[ri["index"]])
+            label = cname(name)
+            orc = self.add_input(Var("orc_" + label, "arr")).name
+            cnt = "cnt_" + label
+            self.add_input(Var(cnt, "Z"))
+            if cnt not in self.written:
+                self.written.append(cnt)
+            self.ncalls += 1
+            rv = "c%d_%s" % (self.ncalls, label)
+            note = "calls to %s: the k-th result is (%s k) for an arbitrary stream; %s counts them; the call binds its " \
+                   "out argument to the element with the given index" % (name, orc, cnt)
+            if note not in self.notes:
+                self.notes.append(note)
+            self.pre.append(("let %s := %s %s in\nlet %s := %s + 1 in\nlet %s := %s in\n"
+                             % (rv, orc, cnt, cnt, cnt, self.locals[rid].name, idx), ""))
+            return wrap(e["type"], rv), []
         if name in self.done:
             cal = self.done[name]
             # bind callee inputs
@@ -458,9 +592,27 @@ class Fn:
                 name, _ = self.callee_name(n)
                 if name in self.spec.get("ignored_calls", []):
                     continue
-                if self.spec.get("intrinsics", {}).get(name) == "store":
+                if self.spec.get("intrinsics", {}).get(name) in ("store", "add", "xadd"):
                     p = self.path_of(n["inner"][1])
                     acc.append((p[0], "arr" if p[1] is not None else "Z"))
+                if self.spec.get("intrinsics", {}).get(name) == "zero_struct":
+                    a0 = n["inner"][1]
+                    while a0["kind"] in ("ImplicitCastExpr", "CStyleCastExpr", "ParenExpr"):
+                        a0 = a0["inner"][0]
+                    rid = a0.get("referencedDecl", {}).get("id")
+                    if rid in self.reftype and self.refbase.get(rid):
+                        for fname, fty in self.tu.record_fields(self.reftype[rid]):
+                            acc.append((self.refbase[rid] + "_" + cname(fname), "arr"))
+                if name in self.spec.get("ref_intrinsics", {}):
+                    ri = self.spec["ref_intrinsics"][name]
+                    out = n["inner"][1 + ri["out"]]
+                    while out["kind"] in ("ImplicitCastExpr", "CStyleCastExpr", "ParenExpr") or \
+                            (out["kind"] == "UnaryOperator" and out["opcode"] == "&"):
+                        out = out["inner"][0]
+                    rid = out.get("referencedDecl", {}).get("id")
+                    if rid in self.locals:
+                        acc.append((self.locals[rid].name, "Z"))
+                    acc.append(("cnt_" + cname(name), "Z"))
                 if name in self.done:
                     acc.extend(self.callee_outs(self.done[name], n["inner"][1:]))
                 elif name in self.spec.get("oracle_calls", []):
@@ -534,6 +686,13 @@ class Fn:
                     # e.g. a scratch char buffer of a logging macro: tolerated as long as nothing translated uses it
                     self.locals[d["id"]] = Var("UNSUPPORTED_LOCAL_" + cname(d["name"]), "bad")
                     return go(i + 1)
+                rec = record_pointee(d["type"])
+                if rec is not None and self.spec.get("ref_intrinsics"):
+                    v = Var(cname(d["name"]) + "_i", "ref")
+                    self.locals[d["id"]] = v
+                    self.reftype[d["id"]] = rec
+                    self.refbase.setdefault(d["id"], None)
+                    return "let %s := 0 (* not bound yet *) in\n%s" % (v.name, go(i + 1))
                 v = Var(cname(d["name"]), "Z")
                 if v.name in self.input_names:
                     v = Var(v.name + "_l", "Z")
@@ -795,6 +954,13 @@ class TU:
                                input=src.encode(), stdout=subprocess.PIPE, stderr=subprocess.PIPE)
             raise Unsupported("sizeof(%s) (struct sizes are not supported yet)" % tname)
         return self.sizes[tname]
+
+    def record_fields(self, rname):
+        """[(field name, clang type dict)] of the complete definition of struct rname"""
+        for d in walk(self.ast):
+            if d.get("kind") == "RecordDecl" and d.get("name") == rname and d.get("completeDefinition"):
+                return [(f["name"], f["type"]) for f in d.get("inner", []) if f.get("kind") == "FieldDecl"]
+        raise Unsupported("no definition of struct %s" % rname)
 
     def function(self, name):
         best = None
